@@ -116,12 +116,12 @@ Definition rank_of (m n : nat) (A : mat) : nat := rank_loop n 0 ([], lrows m n A
 
 (* ------------------------------------------------------------------ the solve step with its certificates *)
 Inductive solved := S_inv (M : mat) | S_ker (w : vec) | S_fail.
-Definition solve (m n : nat) (A : mat) : solved :=
-  let G := mfrz n n (gram m A) in
+Definition solve_g (n : nat) (G : mat) : solved :=
   match gj n (lrows n n G) with
   | GJ_inv rows => let M := mofr rows in if cert_okb n M G then S_inv M else S_fail
   | GJ_ker w => let wv := vofl w in if ker_okb n G wv then S_ker wv else S_fail
   end.
+Definition solve (m n : nat) (A : mat) : solved := solve_g n (mfrz n n (gram m A)).
 
 (* ------------------------------------------------------------------ the estimator as coded *)
 (* one dataset = one (sample count, empirical distribution) pair per schedule *)
@@ -179,7 +179,7 @@ Arguments left_inverse_cert {F} n M G. Arguments kernel_cert {F} n G w.
 Arguments lvec {F} n v. Arguments vofl {F} l _. Arguments vfrz {F} n v _. Arguments lrows {F} m n A.
 Arguments mofr {F} r _ _. Arguments mfrz {F} m n A _ _. Arguments estimate_x {F} m n M A b f _.
 Arguments veqb {F} n x y. Arguments cert_okb {F} n M G. Arguments ker_okb {F} n G w.
-Arguments gj {F} n rows. Arguments rank_of {F} m n A. Arguments solve {F} m n A.
+Arguments gj {F} n rows. Arguments rank_of {F} m n A. Arguments solve {F} m n A. Arguments solve_g {F} n G.
 Arguments S_inv {F} M. Arguments S_ker {F} w. Arguments S_fail {F}.
 Arguments vstack_flatten {F} blocks. Arguments coded_guard {F} m n A.
 Arguments E_ok {F} xs. Arguments E_guard {F}. Arguments E_singular {F}. Arguments E_stack {F}.
